@@ -369,8 +369,10 @@ impl StoryState {
             list.origins.borrow_mut().clear();
 
             for name in &origin_names {
-                let def = self.list_definitions.get_list_definition(name).unwrap();
-                if !list.origins.borrow().iter().any(|e| std::ptr::eq(e, def)) {
+                // an item of a list that is not defined in this story has no origin
+                if let Some(def) = self.list_definitions.get_list_definition(name)
+                    && !list.origins.borrow().iter().any(|e| std::ptr::eq(e, def))
+                {
                     list.origins.borrow_mut().push(def.clone());
                 }
             }
@@ -1383,19 +1385,25 @@ impl StoryState {
 
             if let Some(output_stream_obj) = j_object.get("outputStream") {
                 self.current_flow.output_stream = json_read::jarray_to_runtime_obj_list(
-                    output_stream_obj.as_array().unwrap(),
+                    json_read::as_array(output_stream_obj, "outputStream")?,
                     false,
                 )?;
             }
 
             if let Some(current_choices_obj) = j_object.get("currentChoices") {
                 self.current_flow.current_choices = json_read::jarray_to_runtime_obj_list(
-                    current_choices_obj.as_array().unwrap(),
+                    json_read::as_array(current_choices_obj, "currentChoices")?,
                     false,
                 )?
                 .iter()
-                .map(|o| o.clone().into_any().downcast::<Choice>().unwrap())
-                .collect();
+                .map(|o| {
+                    o.clone().into_any().downcast::<Choice>().map_err(|_| {
+                        StoryError::BadJson(
+                            "currentChoices holds something that is not a choice".to_owned(),
+                        )
+                    })
+                })
+                .collect::<Result<Vec<Rc<Choice>>, StoryError>>()?;
             }
 
             let j_choice_threads_obj = j_object.get("choiceThreads");
@@ -1418,8 +1426,10 @@ impl StoryState {
         }
 
         if let Some(eval_stack_obj) = j_object.get("evalStack") {
-            self.evaluation_stack =
-                json_read::jarray_to_runtime_obj_list(eval_stack_obj.as_array().unwrap(), false)?;
+            self.evaluation_stack = json_read::jarray_to_runtime_obj_list(
+                json_read::as_array(eval_stack_obj, "evalStack")?,
+                false,
+            )?;
         }
 
         if let Some(current_divert_target_path) = j_object.get("currentDivertTarget") {
